@@ -135,6 +135,7 @@ type plan struct {
 	mode   string // probe eof rst stall
 	k      int
 	seen   map[int16]int
+	onHit  func() // called when the target request arrives (stall: the short deadline starts then)
 	// what the hook observed
 	hit     bool
 	stalled bool
@@ -181,6 +182,9 @@ func (fx *fixture) hook(cl *fakecluster.Cluster, r *fakecluster.Request) *fakecl
 	}
 	p.hit = true
 	p.version = r.Version
+	if p.onHit != nil {
+		p.onHit()
+	}
 	act := &fakecluster.Action{Tag: "c17-" + p.mode}
 	capture := func(body map[string]any) {
 		fr, fields, err := refcodec.EncodeResponse(r.API, r.Version, r.Corr, body, nil)
@@ -261,6 +265,7 @@ type env struct {
 	conn *kafka.Conn
 	d    *kafka.Dialer
 	deadline time.Duration
+	cancel   context.CancelFunc // DialLeader: ends the dial
 	// state handed from prep to call
 	member string
 	gen    int32
@@ -407,6 +412,7 @@ func init() {
 		call: func(e *env) opResult {
 			ctx, cancel := context.WithTimeout(context.Background(), e.deadline)
 			defer cancel()
+			e.cancel = cancel
 			conn, err := e.d.DialLeader(ctx, "tcp", "b1.fake:9092", topic, 0)
 			if conn != nil {
 				e.conn = conn
@@ -532,11 +538,26 @@ func execute(tb ev.TB, fx *fixture, c connCase, mode string) (res opResult, p *p
 	rec := &dialRec{}
 	e = &env{c: c, fx: fx, d: fx.dialer(rec)}
 	p = &plan{key: c.TKey, idx: c.TIdx, mode: mode, k: c.K}
+	// stall: the connection goes silent after k bytes; the call's deadline is set 80 ms ahead at the
+	// moment the target request reaches the broker (the exchanges before it run under the long one)
 	deadline := 4 * time.Second
-	if mode == "stall" {
-		deadline = 80 * time.Millisecond
-	}
+	const stallDeadline = 80 * time.Millisecond
 	e.deadline = deadline
+	var hitAt time.Time
+	var hitMu sync.Mutex
+	if mode == "stall" {
+		p.onHit = func() {
+			hitMu.Lock()
+			hitAt = time.Now()
+			hitMu.Unlock()
+			if e.conn != nil {
+				e.conn.SetDeadline(time.Now().Add(stallDeadline))
+			}
+			if e.cancel != nil {
+				time.AfterFunc(stallDeadline, e.cancel)
+			}
+		}
+	}
 	if !op.dials {
 		ctx, cancel := context.WithTimeout(context.Background(), 3*time.Second)
 		conn, err := e.d.DialPartition(ctx, "tcp", "b1.fake:9092", kafka.Partition{Topic: topic, ID: 0, Leader: kafka.Broker{Host: "b1.fake", Port: 9092, ID: 1}})
@@ -558,6 +579,14 @@ func execute(tb ev.TB, fx *fixture, c connCase, mode string) (res opResult, p *p
 	}
 	fx.arm(p)
 	out = guarded(deadline+2*time.Second, func() { res = op.call(e) })
+	if mode == "stall" && out.Returned {
+		// what counts is the time after the short deadline was set
+		hitMu.Lock()
+		if !hitAt.IsZero() {
+			out.Took = time.Since(hitAt)
+		}
+		hitMu.Unlock()
+	}
 	return res, p, out, e
 }
 
@@ -735,6 +764,10 @@ func evalConn(tb ev.TB, c connCase, base *baseline, shared *fixture) {
 		fx.arm(nil)
 	}()
 	sig := opSig(c)
+	if c.Variant == "stall" && out.Returned && out.Took > 80*time.Millisecond+2*time.Second {
+		fail("c17/hang/"+sig, "the call returned only %v after its deadline had been set 80 ms ahead", out.Took)
+		return
+	}
 	if !out.Returned {
 		fail("c17/hang/"+sig, "the call did not return within its deadline + 2 s (waited %v)", out.Took)
 		return
@@ -870,8 +903,8 @@ func enumerateGroup(tb ev.TB, g connCase, rnd func(n int) int, all bool) {
 		return
 	}
 	stride := 1
-	if !all {
-		stride = ev.Scale(5, 1)
+	if !all && op.fetch {
+		stride = 3 // quick tier: fetch responses are sampled (edges, every field and batch boundary, every 3rd byte)
 	}
 	ks, exhaustive := positions(base.frame.Len, base.frame.bounds(), all, stride, ev.Scale(24, 256), rnd)
 	if exhaustive {
